@@ -437,6 +437,8 @@ class Array:
                 token_length = dtype2.bitlength
         if token_length is None:
             token_length = self.itemsize
+        if token_length == 0:
+            raise ValueError(f"The format '{fmt}' has a length of zero, so it cannot be used to print the Array.")
 
         trailing_bit_length = len(self.data) % token_length
         format_sep = " : "  # String to insert on each line between multiple formats
